@@ -176,7 +176,17 @@ def index_output(out):
         if 'all-documents.html' in idx['pages']:
             for m in re.finditer(r'<div class="url">([^<]*)</div>', text):
                 idx['pages']['all-documents.html']['links'].append(html.unescape(m.group(1)))
-    si = os.path.join(out, 'fullsearchindex.json')
+    # the documents of the two lunr indexes (what a search can find): '<field>/<qualified name>' keys of the field vectors
+    import json as _json
+    idx['lunr_refs'] = {}
+    for f in ('searchindex.json', 'fullsearchindex.json'):
+        pth = os.path.join(out, f)
+        if os.path.exists(pth):
+            try:
+                j = _json.load(open(pth, encoding='utf-8'))
+                idx['lunr_refs'][f] = {x[0].split('/', 1)[1] for x in j.get('fieldVectors', []) if '/' in x[0]}
+            except Exception:     # noqa
+                idx['lunr_refs'][f] = None
     return idx
 
 
